@@ -1,86 +1,140 @@
 #!/usr/bin/env python3
 """Drift sentinel (DESIGN §3-C): normalised hashes of every function body of /repo/src.
 
-  tools/fn_hashes.py pin      rewrite tools/fn_hashes.json from the current tree (done when the
-                              models are (re)validated against the source)
+  tools/fn_hashes.py pin      rewrite tools/fn_hashes.json (+ fn_binders.json) from the current tree
+                              (done when the models are (re)validated against the source)
   tools/fn_hashes.py diff     print JSON {"changed": [...], "added": [...], "removed": [...]}
 
-A changed hash is NOT a violation; `check` reports it in the evidence and escalates the case
-budget of the properties anchored in the affected files.
+The hash of a function ignores comments, whitespace, verification-only instrumentation and the
+NAMES of its local binders (parameters, `let`, `for`, closure parameters, `Some(x)`/match-arm
+binders): they are renamed v0, v1, ... in order of first binding.  `canonicalise(rel, text)` uses
+the pinned binder lists to rename the locals of an alpha-equivalent function back to the pinned
+names, so that the extractors (whose anchors mention local names) read a consistently renamed
+function exactly as they read the pinned one.
+
+A changed hash is NOT a violation by itself; `check` reports it in the evidence, escalates the
+case budget of the properties whose model restates the function (tools/drift_map.py) and, for
+those, reports the broken tie when nothing else explains it.
 """
 import sys, os, re, json, hashlib
 ROOT = os.path.dirname(os.path.dirname(os.path.abspath(__file__)))
 REPO = os.environ.get("VERIF_REPO", "/repo")
 BASE = os.path.join(ROOT, "tools", "fn_hashes.json")
-
-def strip(text):
-    text = re.sub(r"//[^\n]*", "", text)
-    text = re.sub(r"/\*.*?\*/", "", text, flags=re.S)
-    # verification-only instrumentation is not part of the modelled code
-    text = re.sub(r"#\[cfg\(num_bigint_verif\)\]\s*\n?\s*[^\n;{]*;", "", text)
-    return text
+BINDERS = os.path.join(ROOT, "tools", "fn_binders.json")
 
 KEYWORDS = set("""as break const continue crate else enum extern false fn for if impl in let loop match mod move mut
 pub ref return self Self static struct super trait true type unsafe use where while dyn async await""".split())
 
-def alpha(body):
-    """Rename the local binders of one function (parameters, `let`, `for`, closure parameters, tuple
-    patterns of those) to v0, v1, ... in order of first binding, so that a consistent renaming of
-    local variables does not change the hash.  Field and method names (after `.`), paths (`a::b`)
-    and macro / function names are left alone; a name is only renamed if it is bound somewhere in
-    this function, and every unqualified occurrence of it is renamed the same way, so two bodies
-    with the same normal form differ by a consistent renaming of locals only."""
-    bound = []
-    def add(names):
-        for n in re.findall(r"\b[a-z_][a-z0-9_]*\b", names):
-            if n not in KEYWORDS and n != "_" and n not in bound:
-                bound.append(n)
-    sig = re.match(r"fn\s+\w+\s*(?:<[^{(]*>)?\s*\(", body)
-    events = []
+def mask(text):
+    """Same-length copies of `text`: (code, nostr) where comments are blanked in both and the
+    contents of string / char literals are additionally blanked in `nostr`.  Newlines are kept."""
+    code, nostr = list(text), list(text)
+    i, n = 0, len(text)
+    def blank(arr, a, b):
+        for k in range(a, b):
+            if arr[k] != "\n":
+                arr[k] = " "
+    while i < n:
+        c = text[i]
+        if text.startswith("//", i):
+            j = text.find("\n", i)
+            j = n if j < 0 else j
+            blank(code, i, j); blank(nostr, i, j)
+            i = j
+        elif text.startswith("/*", i):
+            depth, j = 1, i + 2
+            while j < n and depth:
+                if text.startswith("/*", j):
+                    depth += 1; j += 2
+                elif text.startswith("*/", j):
+                    depth -= 1; j += 2
+                else:
+                    j += 1
+            blank(code, i, j); blank(nostr, i, j)
+            i = j
+        elif c == '"':
+            j = i + 1
+            while j < n and text[j] != '"':
+                j += 2 if text[j] == "\\" else 1
+            blank(nostr, i + 1, min(j, n))
+            i = j + 1
+        elif c == "r" and re.match(r'r#*"', text[i:i + 8]) and (i == 0 or not (text[i - 1].isalnum() or text[i - 1] == "_")):
+            m = re.match(r'r(#*)"', text[i:])
+            close = '"' + m.group(1)
+            j = text.find(close, i + m.end())
+            j = n if j < 0 else j
+            blank(nostr, i + m.end(), j)
+            i = j + len(close)
+        elif c == "'":
+            m = re.match(r"'(\\.[^']*|[^'\\])'", text[i:i + 12])
+            if m:                                   # char literal (a lifetime has no closing quote)
+                blank(nostr, i + 1, i + m.end() - 1)
+                i += m.end()
+            else:
+                i += 1
+        else:
+            i += 1
+    return "".join(code), "".join(nostr)
+
+def binders(ns):
+    """Ordered list of the local binder names of one function; `ns` is its text with comments and
+    literal contents blanked."""
+    bound, events = [], []
+    sig = re.match(r"fn\s+\w+\s*(?:<[^{(]*>)?\s*\(", ns)
     if sig:
         depth, k = 1, sig.end()
-        while k < len(body) and depth:
-            depth += body[k] == "("
-            depth -= body[k] == ")"
+        while k < len(ns) and depth:
+            depth += ns[k] == "("
+            depth -= ns[k] == ")"
             k += 1
-        params = body[sig.end():k - 1]
+        params = ns[sig.end():k - 1]
         for m in re.finditer(r"(?:^|,)\s*(?:mut\s+)?(\w+)\s*:", params):
             events.append((sig.end() + m.start(), m.group(1)))
-    for m in re.finditer(r"\blet\s+(?:mut\s+)?(\w+)\b", body):
+    for m in re.finditer(r"\blet\s+(?:mut\s+)?(\w+)\b", ns):
         events.append((m.start(), m.group(1)))
-    for m in re.finditer(r"\b(?:let|for)\s+(?:mut\s+)?\(([^=]*?)\)\s*(?:=|in\b|:)", body):
+    for m in re.finditer(r"\b(?:let|for)\s+(?:mut\s+)?\(([^=]*?)\)\s*(?:=|in\b|:)", ns):
         events.append((m.start(), re.sub(r"\bmut\b|\bref\b", " ", m.group(1))))
-    for m in re.finditer(r"\bfor\s+(?:mut\s+)?(\w+)\s+in\b", body):
+    for m in re.finditer(r"\bfor\s+(?:mut\s+)?(\w+)\s+in\b", ns):
         events.append((m.start(), m.group(1)))
-    for m in re.finditer(r"(?<![|])\|([^|{};]{0,80})\|(?![|])", body):
+    for m in re.finditer(r"(?<![|])\|([^|{};]{0,80})\|(?![|])", ns):
         inner = re.sub(r":[^,|]*", "", m.group(1))
         if re.fullmatch(r"[\s\w,&()]*", inner):
             events.append((m.start(), re.sub(r"\bmut\b|\bref\b", " ", inner)))
-    for m in re.finditer(r"\b(?:Some|Ok|Err)\(\s*(?:mut\s+|ref\s+)*(\w+)\s*\)\s*(?:=>|=(?!=)|if\b)", body):
+    for m in re.finditer(r"\b(?:Some|Ok|Err)\(\s*(?:mut\s+|ref\s+)*(\w+)\s*\)\s*(?:=>|=(?!=)|if\b)", ns):
         events.append((m.start(), m.group(1)))
-    for m in re.finditer(r"[{,]\s*([a-z_]\w*)\s*=>", body):
+    for m in re.finditer(r"[{,]\s*([a-z_]\w*)\s*=>", ns):
         events.append((m.start(), m.group(1)))
     for _, names in sorted(events):
-        add(names)
-    if not bound:
-        return body
-    idx = {n: "v%d" % i for i, n in enumerate(bound)}
-    def sub(m):
-        n = m.group(0)
-        if n not in idx:
-            return n
-        pre = body[max(0, m.start() - 2):m.start()]
-        post = body[m.end():m.end() + 2]
-        if pre.endswith(".") and not pre.endswith(".."):
-            return n
-        if pre.endswith("::") or post.startswith("::") or post.startswith("!"):
-            return n
-        return idx[n]
-    return re.sub(r"\b[a-z_][a-z0-9_]*\b", sub, body)
+        for n in re.findall(r"\b[a-z_][a-z0-9_]*\b", names):
+            if n not in KEYWORDS and n != "_" and n not in bound:
+                bound.append(n)
+    return bound
 
-def functions(path):
-    code = strip(open(path, errors="replace").read())
-    out = {}
+def rename(text, ns, mapping):
+    """Replace every unqualified occurrence (found in `ns`, applied to `text`; same length) of a
+    name in `mapping`.  Field and method names (after `.`), paths (`a::b`), macro names and
+    lifetimes are left alone."""
+    out, last = [], 0
+    for m in re.finditer(r"\b[a-z_][a-z0-9_]*\b", ns):
+        n = m.group(0)
+        if n not in mapping:
+            continue
+        pre = ns[max(0, m.start() - 2):m.start()]
+        post = ns[m.end():m.end() + 2]
+        if (pre.endswith(".") and not pre.endswith("..")) or pre.endswith("::") or pre.endswith("'") \
+           or post.startswith("::") or post.startswith("!"):
+            continue
+        out.append(text[last:m.start()])
+        out.append(mapping[n])
+        last = m.end()
+    out.append(text[last:])
+    return "".join(out)
+
+VERIF_STMT = re.compile(r"#\[cfg\(num_bigint_verif\)\]\s*[^\n;{]*;")
+
+def spans(code):
+    """(key, start, end) of every function with a body, in file order; keys as in fn_hashes.json."""
+    seen = {}
     for m in re.finditer(r"\bfn\s+(\w+)", code):
         i = code.find("{", m.end())
         j = code.find(";", m.end())
@@ -93,34 +147,131 @@ def functions(path):
             elif code[k] == "}":
                 depth -= 1
                 if depth == 0:
-                    body = alpha(re.sub(r"\s+", " ", code[m.start():k + 1]).strip())
                     name = m.group(1)
-                    n = sum(1 for key in out if key.split("#")[0] == name)
-                    out[name if n == 0 else "%s#%d" % (name, n)] = hashlib.sha256(body.encode()).hexdigest()[:12]
+                    n = seen.get(name, 0)
+                    seen[name] = n + 1
+                    yield (name if n == 0 else "%s#%d" % (name, n)), m.start(), k + 1
                     break
+
+def normal_form(code_seg, ns_seg):
+    """(hash, binder list) of one function given its comment-blanked text and literal-blanked text."""
+    # blank verification-only statements in both copies (same length)
+    for m in list(VERIF_STMT.finditer(code_seg)):
+        pad = re.sub(r"[^\n]", " ", m.group(0))
+        code_seg = code_seg[:m.start()] + pad + code_seg[m.end():]
+        ns_seg = ns_seg[:m.start()] + pad + ns_seg[m.end():]
+    b = binders(ns_seg)
+    body = rename(code_seg, ns_seg, {n: "v%d" % i for i, n in enumerate(b)})
+    body = re.sub(r"\s+", " ", body).strip()
+    return hashlib.sha256(body.encode()).hexdigest()[:12], b
+
+def functions_text(text):
+    code, ns = mask(text)
+    out = {}
+    for key, a, b in spans(code):
+        out[key] = normal_form(code[a:b], ns[a:b]) + (a, b)
     return out
 
-def current():
-    res = {}
+def items_hash(text):
+    """Hash of everything OUTSIDE function bodies (items, macro definitions and invocations, impl
+    headers, consts, attributes), comments and whitespace ignored."""
+    code, _ = mask(text)
+    out, last = [], 0
+    for _, a, b in spans(code):
+        if a < last:
+            continue
+        out.append(code[last:a]); last = b
+    out.append(code[last:])
+    t = re.sub(r"\s+", " ", VERIF_STMT.sub("", "".join(out))).strip()
+    return hashlib.sha256(t.encode()).hexdigest()[:12]
+
+def functions(path):
+    return {k: v[0] for k, v in functions_text(open(path, errors="replace").read()).items()}
+
+def _pins(_cache={}):
+    if "pins" not in _cache:
+        try:
+            hashes, pinned = json.load(open(BASE)), json.load(open(BINDERS))
+        except Exception:
+            hashes, pinned = {}, {}
+        by = {}
+        for k, h in hashes.items():
+            by[(k.split("#")[0], h)] = pinned.get(k)
+        _cache["pins"] = by
+    return _cache["pins"]
+
+def canonicalise(rel, text):
+    """`text` of source file `rel` with the locals of every function that is alpha-equivalent to
+    a pinned function of the same file and name renamed back to the pinned names (outermost
+    functions only; nested ones are part of their parent's normal form).  Anything else is
+    returned unchanged."""
+    by = _pins()
+    code, ns = mask(text)
+    pieces, last = [], 0
+    for key, (h, b, s, e) in sorted(functions_text(text).items(), key=lambda kv: kv[1][2]):
+        if s < last:
+            continue
+        want = by.get(("%s::%s" % (rel, key.split("#")[0]), h))
+        if want is None or want == b or len(want) != len(b):
+            continue
+        # two-step renaming (via fresh placeholders) so that swapped names do not collide
+        tmp = {n: "\x01%d\x02" % i for i, n in enumerate(b)}
+        seg = rename(text[s:e], ns[s:e], tmp)
+        for i, n in enumerate(want):
+            seg = seg.replace("\x01%d\x02" % i, n)
+        pieces.append(text[last:s]); pieces.append(seg)
+        last = e
+    pieces.append(text[last:])
+    return "".join(pieces)
+
+def current(with_binders=False):
+    res, bnd = {}, {}
     for d, _, fs in os.walk(os.path.join(REPO, "src")):
         for f in sorted(fs):
             if f.endswith(".rs") and f != "verif_probe.rs":
                 rel = os.path.relpath(os.path.join(d, f), REPO)
-                for k, v in functions(os.path.join(d, f)).items():
-                    res["%s::%s" % (rel, k)] = v
-    return res
+                text = open(os.path.join(d, f), errors="replace").read()
+                for k, v in functions_text(text).items():
+                    res["%s::%s" % (rel, k)] = v[0]
+                    bnd["%s::%s" % (rel, k)] = v[1]
+                res["%s::<items>" % rel] = items_hash(text)
+    return (res, bnd) if with_binders else res
 
 def diff():
+    """Functions are compared as multisets per (file, name), so inserting or removing one of several
+    same-named functions (`fn from` ...) does not shift the others.  `changed`: a current function whose
+    normal form matches no pinned function of that file and name while a pinned one is unmatched too;
+    `added` / `removed`: the surplus on either side.  `<items>` keys are the per-file hashes of
+    everything outside function bodies."""
     base = json.load(open(BASE)) if os.path.exists(BASE) else {}
     cur = current()
-    return {"changed": sorted(k for k in cur if k in base and base[k] != cur[k]),
-            "added": sorted(k for k in cur if k not in base),
-            "removed": sorted(k for k in base if k not in cur)}
+    def group(d):
+        g = {}
+        for k, h in d.items():
+            g.setdefault(k.split("#")[0], []).append((h, k))
+        return g
+    gb, gc = group(base), group(cur)
+    changed, added, removed = [], [], []
+    for name in sorted(set(gb) | set(gc)):
+        pb = [h for h, _ in gb.get(name, [])]
+        extra = []
+        for h, k in gc.get(name, []):
+            if h in pb:
+                pb.remove(h)
+            else:
+                extra.append(k)
+        n = min(len(pb), len(extra))
+        changed += extra[:n]
+        added += extra[n:]
+        removed += [name] * (len(pb) - n)
+    return {"changed": sorted(changed), "added": sorted(added), "removed": sorted(removed)}
 
 if __name__ == "__main__":
     if len(sys.argv) > 1 and sys.argv[1] == "pin":
-        json.dump(current(), open(BASE, "w"), indent=0, sort_keys=True)
-        print("pinned", len(current()), "functions")
+        h, b = current(with_binders=True)
+        json.dump(h, open(BASE, "w"), indent=0, sort_keys=True)
+        json.dump(b, open(BINDERS, "w"), indent=0, sort_keys=True)
+        print("pinned", len(h), "functions")
     else:
         json.dump(diff(), sys.stdout, indent=1)
         print()
